@@ -203,7 +203,11 @@ class Case:
                 self.trace['notes'].append(f'template: {type(ex).__name__}')
                 continue
             removed = self.remove_defaulted(self.cls, node, p_remove / 100.0)
-            inst = X.parse(self.cls, node)
+            try:
+                inst = X.parse(self.cls, node)
+            except Exception as ex:  # noqa: BLE001   reader rejects this document (C05's business): another template
+                self.trace['notes'].append(f'parse: {type(ex).__name__}')
+                continue
             self.add(inst)
             self.origin.append('parse')
             return ['parse', self.x_parsed_fields(inst, node), removed]
@@ -226,11 +230,11 @@ class Case:
         a, b = self.insts[dst], self.insts[src]
         if dst == src or type(a) is not type(b) or not hasattr(a, 'update_from_other_container'):
             return ['skip']
-        hname = 'DescriptorHandle' if a.is_state_container else 'Handle'
-        if getattr(a, hname) != getattr(b, hname):        # the library refuses otherwise: align the handle first
-            names = [n for n, _ in X.class_props(type(a))]
-            setattr(a, hname, getattr(b, hname))
-            self.emit(['write', dst, [], names.index(hname), self.intern(getattr(b, hname))])
+        names = [n for n, _ in X.class_props(type(a))]
+        for hname in ('DescriptorHandle', 'Handle'):      # the library refuses other handles: align them first
+            if hname in names and getattr(a, hname) != getattr(b, hname):
+                setattr(a, hname, getattr(b, hname))
+                self.emit(['write', dst, [], names.index(hname), self.intern(getattr(b, hname))])
         # getattr(src, name) yields the IMPLIED value where src has none: dst receives it as an actual value
         ov = []
         for (name, p), raw in zip(X.class_props(type(b)), X.raw_fields(b)):
